@@ -162,9 +162,13 @@ print(json.dumps(run_queries(arr, {voc!r})))
                         return {"mismatch": ["fresh", op[1], got[:2], before[op[1]][:2]]}
                 else:
                     b = pickle.loads(pickle.dumps(pd.Series(a))).array if op[3] else pickle.loads(pickle.dumps(a))
+                    got = run_queries(b, voc)
                     arrays.append(b)
                     vocs.append(voc)
-                    before.append(run_queries(b, voc))
+                    before.append(got)
+                    # the same-process round trip must answer like the ORIGINAL (not merely like itself later)
+                    if json.loads(json.dumps(got)) != json.loads(json.dumps(before[op[1]])):
+                        return {"mismatch": ["same-process", op[1], got[:2], before[op[1]][:2]]}
         # at the end: every array still answers as it did when first seen
         after = [run_queries(a, v) for a, v in zip(arrays, vocs)]
         listing = []
